@@ -728,14 +728,26 @@ def _alarm(signum, frame):
 WATCHDOG_HITS = [0]
 
 
-def evaluate_fresh(text, mkdata, timeout=20):
+_engine_limited = None
+
+
+def engine_limited():
+    """the engine C13 evaluates with: yaql.limitIterators far above anything a generated case produces, so that a
+    change which makes a finite pipeline endless ends in CollectionTooLarge (reported) instead of hanging"""
+    global _engine_limited
+    if _engine_limited is None:
+        _engine_limited = yaql.YaqlFactory().create(options={"yaql.limitIterators": 2000})
+    return _engine_limited
+
+
+def evaluate_fresh(text, mkdata, timeout=10):
     """evaluate with freshly built data; a watchdog hit is only believed when it repeats (machine load).
     After a few confirmed hits (a tree on which evaluations hang) the patience is reduced so that the run ends."""
-    if WATCHDOG_HITS[0] >= 3:
-        return evaluate(text, mkdata(), 4)
-    o = evaluate(text, mkdata(), timeout)
+    if WATCHDOG_HITS[0] >= 2:
+        return evaluate(text, mkdata(), 2, eng=engine_limited())
+    o = evaluate(text, mkdata(), timeout, eng=engine_limited())
     if o[0] == "err" and o[1] == "EOther" and o[2].startswith("watchdog"):
-        o = evaluate(text, mkdata(), 2 * timeout)
+        o = evaluate(text, mkdata(), 3 * timeout, eng=engine_limited())
         if o[0] == "err" and o[1] == "EOther" and o[2].startswith("watchdog"):
             WATCHDOG_HITS[0] += 1
     return o
